@@ -356,9 +356,14 @@ def make_filter_classes():
                 n = self.vn
                 self._log('return', what='callable', n=n, seq=seq)
 
+                none_mod = self.vbeh.get('callable_none_mod')
+
                 def deferred():
                     self._log('callable-invoked', n=n, seq=seq)
                     self._inject('callable', n)
+                    if none_mod and n % none_mod == 1:
+                        self._log('callable-returned-none', n=n, seq=seq)
+                        return None            # documented just-in-time form: "nothing to send after all"
                     return res
                 return deferred
             self._log('return', what='dict', n=self.vn, topics=list(res))
@@ -515,10 +520,13 @@ class World:
                         break
                     if raw.get('period_ms'):
                         w.sim.sleep(raw['period_ms'] / 1000)
-                    tok = {'o': nid, 'oi': inc, 'seq': i, 'tp': 'main', 'c': 'data'}
-                    msg = {'main': [None, json.dumps(tok, separators=(',', ':')).encode()]}
+                    tp = raw.get('topic', 'main')
+                    tok = {'o': nid, 'oi': inc, 'seq': i, 'tp': tp, 'c': 'data'}
+                    msg = {tp: [None, json.dumps(tok, separators=(',', ':')).encode()]}
                     to = raw.get('send_timeout_ms')        # None = the documented blocking form
-                    while sender.send(msg, timeout=to) is None and not stop_evt.is_set():
+                    # first_id: a publisher coupled to an upstream whose ids are already high (send() with a state, as MQ does for relays)
+                    st = None if raw.get('first_id') is None else zeromq.ZMQStateSend(raw['first_id'] + i)
+                    while (r_ := sender.send(msg, st, timeout=to)) is None and not stop_evt.is_set():
                         pass
             finally:
                 sender.destroy()
